@@ -364,8 +364,8 @@ def flow(items, root, out):
             key, src, v0 = items[0]
             out['vio'].append((
                 unreadable_sig(v0, type(exc).__name__), src,
-                f'-s X={short(src, 80)} is accepted (as {sr(v0, 60)}) and '
-                f'stored as {sr(v0, 60)!r} but {path} raises '
+                f'-s X={short(src, 80)} is accepted (as {sr(v0, 60)}; repr '
+                f'{sr(v0, 60)!r}) but {path} raises '
                 f'{type(exc).__name__}: {short(str(exc), 80)} '
                 f'(leaves: {sorted(leaf_kinds(v0))})'))
             if path == 'scheduler-restart':
